@@ -2,18 +2,19 @@ package main
 
 // targetFile maps a generated definition to the Gen file that holds it (default GenFuncs).
 var targetFile = map[string]string{
-	"GetSystemErrorCode": "GenRetry",
-	"getErrCode":         "GenRetry",
-	"CanRetry":           "GenRetry",
-	"SetPayloadSize":     "GenFrame",
-	"PayloadSize":        "GenFrame",
-	"finishesCall":       "GenFrame",
-	"frameTypeFor":       "GenFrame",
-	"isMessageTypeCall":  "GenFrame",
-	"hasMoreFragments":   "GenFrame",
-	"isCallResOK":        "GenFrame",
-	"ChecksumSize":       "GenFrame",
-	"poolIndex":          "GenFrame",
+	"GetSystemErrorCode":  "GenRetry",
+	"getErrCode":          "GenRetry",
+	"CanRetry":            "GenRetry",
+	"SetPayloadSize":      "GenFrame",
+	"PayloadSize":         "GenFrame",
+	"finishesCall":        "GenFrame",
+	"frameTypeFor":        "GenFrame",
+	"isMessageTypeCall":   "GenFrame",
+	"hasMoreFragments":    "GenFrame",
+	"isCallResOK":         "GenFrame",
+	"ChecksumSize":        "GenFrame",
+	"poolIndex":           "GenFrame",
+	"isEphemeralHostPort": "GenHandshake",
 }
 
 // varFields: constant fields of package-level composite-literal variables.
@@ -73,4 +74,7 @@ var targets = []Target{
 	// checksum.go
 	{Func: "ChecksumType.ChecksumSize", Out: "ChecksumSize", Params: "(t : Z)", Ret: "Z",
 		Hints: map[string]string{"crc32.Size": "4"}},
+	// peer.go: which announced host:port values count as ephemeral (C13)
+	{Func: "isEphemeralHostPort", Out: "isEphemeralHostPort", Params: "(hostPort : list Z) (has_suffix_colon0 : bool)", Ret: "bool",
+		Hints: map[string]string{"strings.HasSuffix(hostPort, \":0\")": "has_suffix_colon0"}},
 }
